@@ -13,6 +13,9 @@ pub struct MemFile<const N: usize> {
     pub n_seek: u32,
     pub n_flush: u32,
     pub n_read: u32,
+    /// state observed at each of the first 8 flush() calls: (file length, bytes 24..28 as a
+    /// big-endian i32 = header length field, position)
+    pub flog: [(usize, i32, usize); 8],
 }
 
 impl<const N: usize> MemFile<N> {
@@ -25,6 +28,7 @@ impl<const N: usize> MemFile<N> {
             n_seek: 0,
             n_flush: 0,
             n_read: 0,
+            flog: [(0, 0, 0); 8],
         }
     }
     pub fn ops(&self) -> u32 {
@@ -63,6 +67,10 @@ impl<const N: usize> Write for MemFile<N> {
         Ok(data.len())
     }
     fn flush(&mut self) -> io::Result<()> {
+        if (self.n_flush as usize) < 8 && N >= 28 {
+            let h = i32::from_be_bytes([self.buf[24], self.buf[25], self.buf[26], self.buf[27]]);
+            self.flog[self.n_flush as usize] = (self.len, h, self.pos);
+        }
         self.n_flush += 1;
         Ok(())
     }
@@ -374,4 +382,48 @@ impl Seek for FaultSource<'_> {
         self.tick()?;
         self.s.seek(to)
     }
+}
+
+/// Handle that lets the harness keep looking at a destination while the writer owns a
+/// `Write + Seek` value: it forwards to the file behind a raw pointer.
+pub struct Shared<F>(pub *mut F);
+impl<F> Shared<F> {
+    pub fn new(f: &mut F) -> Self {
+        Shared(f as *mut F)
+    }
+}
+impl<F: Write> Write for Shared<F> {
+    fn write(&mut self, data: &[u8]) -> io::Result<usize> {
+        unsafe { (*self.0).write(data) }
+    }
+    fn flush(&mut self) -> io::Result<()> {
+        unsafe { (*self.0).flush() }
+    }
+}
+impl<F: Seek> Seek for Shared<F> {
+    fn seek(&mut self, to: SeekFrom) -> io::Result<u64> {
+        unsafe { (*self.0).seek(to) }
+    }
+}
+
+/// Byte-wise equality of two images over their full capacity (nested loops so that no
+/// loop exceeds 32 iterations), plus equal logical lengths.
+pub fn same_image<const N: usize>(a: &MemFile<N>, b: &MemFile<N>) -> bool {
+    if a.len != b.len {
+        return false;
+    }
+    let mut ok = true;
+    let mut blk = 0;
+    while blk * 32 < N {
+        let mut j = 0;
+        while j < 32 {
+            let i = blk * 32 + j;
+            if i < N && a.buf[i] != b.buf[i] {
+                ok = false;
+            }
+            j += 1;
+        }
+        blk += 1;
+    }
+    ok
 }
